@@ -569,6 +569,30 @@ func deepHistory(k int, data []gen.DataSpec) *hist.History {
 	return h
 }
 
+// sameTextInAnotherAttribute returns histories in which static text that is a valid prefix of a
+// plain URL attribute but not of a TrustedResourceURL attribute is analysed in the former
+// first; the member with the latter must fail whatever was analysed before, in this set or
+// any other set of the process.
+func sameTextInAnotherAttribute(data []gen.DataSpec) []*hist.History {
+	var out []*hist.History
+	pairs := [][2]string{
+		{`<form action="%s{{$.S0}}"></form>`, `<script src="%s{{$.S0}}"></script>`},
+		{`<button formaction="%s{{$.S0}}">b</button>`, `<link rel="stylesheet" href="%s{{$.S0}}">`},
+		{`<input formaction='%s{{$.S0}}'>`, `<iframe src='%s{{$.S0}}'></iframe>`},
+		{`<form action="%s{{template "d" .}}"></form>`, `<script src="%s{{template "d" .}}"></script>`},
+	}
+	for _, pre := range []string{"http://example.com/search?q=", "ftp://h/p/", "p/q/", "x?y=", "HTTP://EXAMPLE.COM/a/", "mailto:a@b?subject="} {
+		for _, pr := range pairs {
+			h := &hist.History{Data: data[:1], NVar: 2, MustFail: []string{"mf"}}
+			text := `{{define "d"}}{{$.S0}}{{end}}{{define "plain"}}` + fmt.Sprintf(pr[0], pre) + `{{end}}{{define "mf"}}` + fmt.Sprintf(pr[1], pre) + `{{end}}`
+			h.Ops = []hist.Op{{Kind: "new", H: -1, Dst: 0, Name: "root"}, {Kind: "parse", H: 0, Dst: 0, Text: text},
+				{Kind: "exect", H: 0, Dst: -1, Name: "plain", Data: 0}, {Kind: "exect", H: 0, Dst: -1, Name: "mf", Data: 0}, {Kind: "exect", H: 0, Dst: -1, Name: "plain", Data: 0}, {Kind: "execthtml", H: 0, Dst: -1, Name: "mf", Data: 0}}
+			out = append(out, h)
+		}
+	}
+	return out
+}
+
 // budgetHistories returns histories over a set whose members are analysed at a cost near the
 // analysis budget of the engine: whether a member is within the budget, and whether small
 // members stay analysable, must not depend on what was executed before. (Ranges over a
@@ -621,6 +645,15 @@ func run(c *core.Ctx, cf cfg) {
 			rc := racing{Pad: []int{0, 50, 1000, 20000}[rr.Intn(4)], DelayUs: []int{0, 0, 20, 200, 2000}[rr.Intn(5)], Data: "<script>alert(1)</script>"}
 			c.Journal(util.JSON(kase{Racing: &rc}))
 			raceOnce(c, rc, false)
+		}
+	}
+	if cf.id == "C05" {
+		for k, h := range sameTextInAnotherAttribute(hist.GenData(c.Rng("same-text"), 1)) {
+			if c.Mine(k) {
+				c.Count("histories_with_the_same_static_text_in_a_plain_url_attribute_first", 1)
+				c.Journal(util.JSON(kase{History: h}))
+				judge(c, cf, h, false)
+			}
 		}
 	}
 	deep := 0
